@@ -115,6 +115,8 @@ def init (spec : Bool) (_ : List (String × String)) : St := { spec := spec }
 def parseOp (op : String) (a : List (String × String)) (nonce : Nat) : Option Op :=
   match op with
   | "init" => some (.init (parseMk (arg a "mk")) (arg a "id") (parseKey (arg a "pub")) nonce)
+  -- four identical Initialize calls at once behave as one (the storage's mutex is held from the check to the install)
+  | "initrace" => some (.init (parseMk (arg a "mk")) (arg a "id") (parseKey (arg a "pub")) nonce)
   | "add" => some (.add (arg a "new") (parseKey (arg a "pub")) (arg a "old") (parseKey (arg a "priv")) nonce)
   | "delete" => some (.delete (arg a "id") (parseKey (arg a "priv")))
   | "get" => some (.get (arg a "id") (parseKey (arg a "priv")))
